@@ -368,3 +368,288 @@ Proof.
         specialize (NoFrac (c :: t) ltac:(discriminate)).
         destruct (re_tail echar (c0 :: ip') (c :: t)) as [[mant ex]|], (sci_tail base eb (is_char echar) false I 0 (c :: t)) as [mag|]; try exact NoFrac.
   Qed.
+
+(* ---------------------------------------------------------------- sign, prefix, whitespace *)
+Definition head_minus (t : list ascii) : bool := match t with c :: _ => is_char "-" c | [] => false end.
+
+Lemma sci_core base eb echar prefix relaxed zero_int t : 2 <= base -> 0 < eb ->
+  match (match re_sci (is_digit base) echar prefix relaxed t with
+         | None => None
+         | Some (sg, mant, ex) => mant_to_fraction zero_int relaxed sg mant ex base eb
+         end),
+        sci_denote base eb (is_char echar) prefix false (negb relaxed) t with
+  | Some q, Some (neg, mag) => (q == (if neg then - mag else mag))%Q /\ neg = head_minus t
+  | None, None => True
+  | None, Some _ => zero_int = false
+  | Some _, None => False
+  end.
+Proof.
+  intros Hb He. unfold re_sci, sci_denote.
+  (* the sign *)
+  assert (SG : exists sg neg s1,
+     (match t with
+      | c :: t' => if is_char "-" c || is_char "+" c then (Some c, t') else (None, t)
+      | [] => (None, [])
+      end) = (sg, s1) /\ eat_sign t = (neg, s1) /\ neg = head_minus t /\
+     qsign sg = (if neg then inject_Z (-1) else 1%Q)).
+  { destruct t as [|c t']; [exists None, false, []; auto|]. unfold eat_sign, head_minus, qsign.
+    destruct (is_char "-" c) eqn:M; [exists (Some c), true, t'; rewrite M; auto|].
+    destruct (is_char "+" c) eqn:P; [exists (Some c), false, t'; rewrite M; auto|].
+    exists None, false, (c :: t'); auto. }
+  destruct SG as [sg [neg [s1 [-> [-> [Hneg Hsg]]]]]].
+  destruct (drop_prefix prefix s1) as [s2|]; [|exact I].
+  pose proof (body_core base eb echar relaxed zero_int sg s2 Hb He) as B.
+  destruct (re_body (is_digit base) echar relaxed s2) as [[mant ex]|],
+           (sci_body base eb (is_char echar) false (negb relaxed) s2) as [mag|]; try contradiction; [|exact I].
+  destruct (mant_to_fraction zero_int relaxed sg mant ex base eb) as [q|].
+  - split; [|exact Hneg]. rewrite B, Hsg. destruct neg; [|apply Qmult_1_l].
+    change (inject_Z (-1)) with (- (1))%Q. field.
+  - apply B.
+Qed.
+
+Lemma strip_left_head s : match strip_left s with c :: _ => is_space c = false | [] => True end.
+Proof.
+  induction s as [|c t IH]; simpl; [exact I|]. destruct (is_space c) eqn:E; [exact IH|exact E].
+Qed.
+
+Lemma strip_left_snoc l c : is_space c = false -> strip_left (l ++ [c]) = strip_left l ++ [c].
+Proof.
+  intros H. induction l as [|d l IH]; simpl; [rewrite H; reflexivity|].
+  destruct (is_space d); [exact IH|reflexivity].
+Qed.
+
+Lemma starts_minus_strip s : starts_minus s = head_minus (strip s).
+Proof.
+  unfold starts_minus, strip. pose proof (strip_left_head s) as H.
+  destruct (strip_left s) as [|c u]; [reflexivity|].
+  simpl rev. rewrite strip_left_snoc by exact H. rewrite rev_app_distr. reflexivity.
+Qed.
+
+(* as_real of the code against `signed` of the denotation *)
+Lemma as_real_signed (q : Q) (neg : bool) (mag : Q) (s : list ascii) :
+  (q == (if neg then - mag else mag))%Q -> neg = head_minus (strip s) ->
+  olval_equiv (as_real (Some q) s) (signed (Some (neg, mag))).
+Proof.
+  intros E N. unfold as_real, signed. rewrite starts_minus_strip, <- N.
+  destruct neg.
+  - rewrite andb_true_r.
+    assert (B : Qeq_bool q 0 = Qeq_bool mag 0).
+    { destruct (Qeq_bool q 0) eqn:A, (Qeq_bool mag 0) eqn:C; try reflexivity.
+      - apply Qeq_bool_eq in A. apply Qeq_bool_neq in C. exfalso. apply C. rewrite E in A.
+        rewrite <- (Qopp_involutive mag). rewrite A. reflexivity.
+      - apply Qeq_bool_neq in A. apply Qeq_bool_eq in C. exfalso. apply A. rewrite E, C. reflexivity. }
+    rewrite B. destruct (Qeq_bool mag 0); simpl; [exact I|exact E].
+  - rewrite andb_false_r. simpl. exact E.
+Qed.
+
+(* ================================================================ theorems *)
+(* decnum_to_fraction (with Decnum.as_real): every string, any digit counts *)
+Theorem decnum_spec relaxed s : olval_equiv (decnum_value relaxed s) (dec_denote (negb relaxed) s).
+Proof.
+  unfold decnum_value, decnum_to_fraction, dec_denote.
+  pose proof (sci_core 10 10 "e" [] relaxed true (strip (chars s)) ltac:(lia) ltac:(lia)) as C.
+  destruct (re_sci (is_digit 10) "e" [] relaxed (strip (chars s))) as [[[sg mant] ex]|].
+  - destruct (mant_to_fraction true relaxed sg mant ex 10 10) as [q|],
+             (sci_denote 10 10 (is_char "e") [] false (negb relaxed) (strip (chars s))) as [[neg mag]|];
+      try contradiction; try discriminate.
+    + destruct C as [E N]. apply as_real_signed; assumption.
+    + exact I.
+  - destruct (sci_denote 10 10 (is_char "e") [] false (negb relaxed) (strip (chars s))) as [[neg mag]|];
+      [discriminate|exact I].
+Qed.
+
+(* hexnum_to_fraction (with Hexnum.as_real) *)
+Theorem hexnum_spec fx s :
+  match hexnum_value fx s, hex_denote s with
+  | Some a, Some b => lval_equiv a b
+  | None, None => True
+  | None, Some _ => fx_hexint fx = false
+  | Some _, None => False
+  end.
+Proof.
+  unfold hexnum_value, hexnum_to_fraction, hex_denote.
+  pose proof (sci_core 16 2 "p" ["0"%char; "x"%char] false (fx_hexint fx) (strip (chars s)) ltac:(lia) ltac:(lia)) as C.
+  change (negb false) with true in C.
+  destruct (re_sci (is_digit 16) "p" ["0"%char; "x"%char] false (strip (chars s))) as [[[sg mant] ex]|].
+  - destruct (mant_to_fraction (fx_hexint fx) false sg mant ex 16 2) as [q|],
+             (sci_denote 16 2 (is_char "p") ["0"%char; "x"%char] false true (strip (chars s))) as [[neg mag]|];
+      try contradiction.
+    + destruct C as [E N]. pose proof (as_real_signed q neg mag (chars s) E N) as A.
+      destruct (as_real (Some q) (chars s)), (signed (Some (neg, mag))); try contradiction; exact A.
+    + simpl. unfold signed. destruct neg; [destruct (Qeq_bool mag 0)|]; exact C.
+    + exact I.
+  - destruct (sci_denote 16 2 (is_char "p") ["0"%char; "x"%char] false true (strip (chars s))) as [[neg mag]|].
+    + simpl. unfold signed. destruct neg; [destruct (Qeq_bool mag 0)|]; exact C.
+    + exact I.
+Qed.
+
+Corollary hexnum_spec_fixed fx s : fx_hexint fx = true -> olval_equiv (hexnum_value fx s) (hex_denote s).
+Proof.
+  intros H. pose proof (hexnum_spec fx s) as S. unfold olval_equiv.
+  destruct (hexnum_value fx s), (hex_denote s); try exact S. congruence.
+Qed.
+
+(* as coded: whenever the function returns, it returns the denoted number ... *)
+Corollary hexnum_spec_partial s a : hexnum_value lit_as_coded s = Some a ->
+  exists b, hex_denote s = Some b /\ lval_equiv a b.
+Proof.
+  intros H. pose proof (hexnum_spec lit_as_coded s) as S. rewrite H in S.
+  destruct (hex_denote s) as [b|]; [exists b; auto|contradiction].
+Qed.
+
+(* ... but it raises on a mantissa without integer digits *)
+Theorem hexnum_refuted : exists s q, hexnum_value lit_as_coded s = None /\ hex_denote s = Some (LQ q) /\ (q == 1)%Q.
+Proof. exists "0x.8p1"%string, (16 # 16)%Q. vm_compute. repeat split; reflexivity. Qed.
+
+(* ---------------------------------------------------------------- rational(p, q), digits(m, e, b) *)
+Theorem rational_spec p q : olval_equiv (rational_value p q) (rational_denote p q).
+Proof.
+  unfold rational_value, rational_denote. destruct (Z.eqb_spec q 0) as [|NZ]; [exact I|]. simpl.
+  destruct (Z.ltb_spec 0 q) as [P|P].
+  - rewrite Qmake_div by exact P. reflexivity.
+  - rewrite Qmake_div by lia. rewrite !inject_Z_opp. field. apply inject_nonzero. exact NZ.
+Qed.
+
+Theorem digits_spec m e b : olval_equiv (digits_value m e b) (digits_denote m e b).
+Proof.
+  unfold digits_value, digits_denote. destruct ((b =? 0) && (e <? 0)) eqn:G; [exact I|].
+  destruct (Z.leb_spec 0 e) as [E|E]; simpl.
+  - rewrite <- inject_pow by exact E. rewrite <- inject_Z_mult. reflexivity.
+  - assert (Bnz : b <> 0).
+    { intros ->. simpl in G. destruct (Z.ltb_spec e 0); [discriminate|lia]. }
+    assert (Dnz : b ^ (- e) <> 0) by (apply Z.pow_nonzero; lia).
+    replace e with (- (- e)) at 1 by lia. rewrite qpow_neg by lia.
+    destruct (Z.ltb_spec 0 (b ^ (- e))) as [P|P]; simpl.
+    + rewrite Qmake_div by exact P. reflexivity.
+    + rewrite Qmake_div by lia. rewrite !inject_Z_opp. field. apply inject_nonzero. exact Dnz.
+Qed.
+
+(* ---------------------------------------------------------------- the parser *)
+Lemma lneg_compat a b : lval_equiv a b -> lval_equiv (lneg a) (lneg b).
+Proof.
+  destruct a as [|x], b as [|y]; simpl; try contradiction; [reflexivity|].
+  intros E. assert (B : Qeq_bool x 0 = Qeq_bool y 0).
+  { destruct (Qeq_bool x 0) eqn:A, (Qeq_bool y 0) eqn:C; try reflexivity.
+    - apply Qeq_bool_eq in A. apply Qeq_bool_neq in C. exfalso. apply C. rewrite <- E. exact A.
+    - apply Qeq_bool_neq in A. apply Qeq_bool_eq in C. exfalso. apply A. rewrite E. exact C. }
+  rewrite B. destruct (Qeq_bool y 0); simpl; [exact I|]. rewrite E. reflexivity.
+Qed.
+
+(* side conditions under which the model of the parser is claimed correct;
+   for the repaired code (lit_all_fixed) they say only: an integer literal is
+   what Python's own integer parser returned, and a float token has no sign *)
+Fixpoint lit_ok (fx : lfixes) (l : lit) : Prop :=
+  match l with
+  | LInt sp v => pyint_denote sp = Some v
+  | LFloat sp _ => fx_float fx = true /\ head_minus (strip (normalize_pyfloat sp)) = false
+  | LHex s => fx_hexint fx = true \/ hexnum_value fx s <> None
+  | LRational _ _ | LDigits _ _ _ => True
+  | LPos a => lit_ok fx a
+  | LNeg a => lit_ok fx a /\ (fx_negneg fx = true \/ lit_denote a <> Some LNegZero)
+  end.
+
+Lemma Qred_integral q : Zpos (Qden (Qred q)) = 1 -> (inject_Z (Qnum (Qred q)) == q)%Q.
+Proof.
+  intros H. rewrite <- (Qred_correct q) at 2. destruct (Qred q) as [n d]. simpl in *.
+  injection H as ->. reflexivity.
+Qed.
+
+Theorem literal_value_spec fx l : lit_ok fx l -> olval_equiv (literal_value fx l) (lit_denote l).
+Proof.
+  unfold literal_value. induction l as [sp v|sp py|s|p q|m e b|a IH|a IH]; simpl; intros Ok.
+  - (* integer literal *) rewrite Ok. simpl. reflexivity.
+  - (* float literal, read from its spelling *)
+    destruct Ok as [Fx Hs]. rewrite Fx. unfold pyfloat_denote, decnum_to_fraction.
+    pose proof (sci_core 10 10 "e" [] true true (strip (normalize_pyfloat sp)) ltac:(lia) ltac:(lia)) as C.
+    change (negb true) with false in C.
+    destruct (re_sci (is_digit 10) "e" [] true (strip (normalize_pyfloat sp))) as [[[sg mant] ex]|].
+    + destruct (mant_to_fraction true true sg mant ex 10 10) as [q|],
+               (sci_denote 10 10 (is_char "e") [] false false (strip (normalize_pyfloat sp))) as [[neg mag]|];
+        try contradiction; try discriminate; [|exact I].
+      destruct C as [E N]. rewrite Hs in N. subst neg. unfold signed.
+      cbv iota in E.
+      destruct (Qden (Qred q)) eqn:D; simpl; try exact E.
+      transitivity q; [apply Qred_integral; rewrite D; reflexivity|exact E].
+    + destruct (sci_denote 10 10 (is_char "e") [] false false (strip (normalize_pyfloat sp))) as [[neg mag]|];
+        [discriminate|exact I].
+  - (* hexfloat *)
+    pose proof (hexnum_spec fx s) as H. unfold olval_equiv.
+    destruct (hexnum_value fx s) as [a|], (hex_denote s) as [b|]; simpl; try exact H; try exact I.
+    destruct Ok as [Ok|Ok]; [congruence|contradiction Ok; reflexivity].
+  - (* rational *)
+    pose proof (rational_spec p q) as H. destruct (rational_value p q), (rational_denote p q); exact H.
+  - (* digits *)
+    pose proof (digits_spec m e b) as H. destruct (digits_value m e b), (digits_denote m e b); exact H.
+  - (* unary minus *)
+    destruct Ok as [Ok NN]. specialize (IH Ok).
+    destruct (parse fx a) as [n|]; destruct (lit_denote a) as [v|]; simpl in IH; try contradiction; [|exact I].
+    destruct n as [z|w|n'].
+    + (* Integer *)
+      destruct v as [|y]; simpl in IH; [contradiction|].
+      destruct z as [|pz|pz]; simpl.
+      * assert (B : Qeq_bool y 0 = true) by (apply Qeq_bool_iff; rewrite <- IH; reflexivity). rewrite B. exact I.
+      * assert (B : Qeq_bool y 0 = false).
+        { destruct (Qeq_bool y 0) eqn:A; [|reflexivity]. apply Qeq_bool_eq in A. rewrite A in IH.
+          unfold Qeq in IH. simpl in IH. lia. }
+        rewrite B. simpl. rewrite <- IH. reflexivity.
+      * assert (B : Qeq_bool y 0 = false).
+        { destruct (Qeq_bool y 0) eqn:A; [|reflexivity]. apply Qeq_bool_eq in A. rewrite A in IH.
+          unfold Qeq in IH. simpl in IH. lia. }
+        rewrite B. simpl. rewrite <- IH. reflexivity.
+    + (* another rational literal *)
+      destruct w as [|x].
+      * destruct v as [|y]; simpl in IH; [|contradiction].
+        destruct NN as [NN|NN]; [rewrite NN; simpl; reflexivity|contradiction NN; reflexivity].
+      * destruct v as [|y]; simpl in IH; [contradiction|].
+        assert (B : Qeq_bool x 0 = Qeq_bool y 0).
+        { destruct (Qeq_bool x 0) eqn:A, (Qeq_bool y 0) eqn:C; try reflexivity.
+          - apply Qeq_bool_eq in A. apply Qeq_bool_neq in C. exfalso. apply C. rewrite <- IH. exact A.
+          - apply Qeq_bool_neq in A. apply Qeq_bool_eq in C. exfalso. apply A. rewrite IH. exact C. }
+        cbn [option_map lneg]. rewrite <- B.
+        destruct (Qeq_bool x 0) eqn:A; simpl; [exact I|].
+        rewrite A. simpl. rewrite IH. reflexivity.
+    + (* a Neg operation *)
+      simpl. apply lneg_compat. exact IH.
+  - (* unary plus *) apply IH. exact Ok.
+Qed.
+
+(* the repaired code: every literal *)
+Corollary literal_value_fixed l : lit_ok lit_all_fixed l ->
+  olval_equiv (literal_value lit_all_fixed l) (lit_denote l).
+Proof. apply literal_value_spec. Qed.
+
+(* the code as it is: wrong on float literals that are not doubles ... *)
+Theorem parser_float_refuted :
+  exists sp v rp q, pyfloat_denote sp = Some (LQ q) /\ binary64_nearest_int v q = true /\
+    literal_value lit_as_coded (LFloat sp (PYF false v 1 rp)) = Some (LQ (inject_Z v)) /\ ~ (inject_Z v == q)%Q.
+Proof.
+  exists "1e23"%string, 99999999999999991611392, "1e+23"%string, (100000000000000000000000 # 1)%Q.
+  vm_compute. repeat split; try reflexivity. intro H; discriminate.
+Qed.
+
+(* ... and on the negation of a negative zero *)
+Theorem negneg_refuted :
+  exists l, lit_ok lit_all_fixed l /\ literal_value lit_as_coded l = Some LNegZero /\ lit_denote l = Some (LQ 0).
+Proof.
+  exists (LNeg (LNeg (LInt "0" 0))). vm_compute. repeat split; try reflexivity; auto.
+Qed.
+
+(* negative-zero fold: `-0`, `-0.0` are the negative zero under every variant *)
+Theorem neg_zero_fold fx :
+  literal_value fx (LNeg (LInt "0" 0)) = Some LNegZero /\
+  lit_denote (LNeg (LInt "0" 0)) = Some LNegZero /\
+  lit_denote (LNeg (LFloat "0.0" (PYF false 0 1 "0.0"))) = Some LNegZero /\
+  literal_value fx (LNeg (LFloat "0.0" (PYF false 0 1 "0.0"))) = Some LNegZero.
+Proof. destruct fx as [[] [] []]; vm_compute; repeat split; reflexivity. Qed.
+
+(* ---------------------------------------------------------------- non-vacuity *)
+Example lit_ok_inhabited :
+  lit_ok lit_all_fixed (LNeg (LFloat "1_0.5E-3" (PYF false 0 1 ""))) /\
+  lit_ok lit_all_fixed (LPos (LInt "0x_fF" 255)) /\
+  lit_ok lit_all_fixed (LNeg (LNeg (LHex "0x.8p1"))) /\
+  lit_ok lit_as_coded (LNeg (LHex "-0x1.8p3")) /\
+  (exists q, lit_denote (LFloat "1_0.5E-3" (PYF false 0 1 "")) = Some (LQ q) /\ (q == 21 # 2000)%Q).
+Proof.
+  repeat split; try (vm_compute; reflexivity); try (right; vm_compute; intro; discriminate); try (left; reflexivity).
+  eexists. split; [vm_compute; reflexivity|]. vm_compute. reflexivity.
+Qed.
